@@ -27,10 +27,18 @@ theorem flatMap_range' {β : Type} (f : Bytes → List β) (g : Nat → List β)
     simp only [Nat.add_zero, List.getElem_cons_zero] at h0
     rw [h0, ih (k + 1) (fun i hi => by have := h (i + 1) (by simp; omega); simpa [Nat.add_assoc, Nat.add_comm 1] using this)]
 
-/-- the de-interleave loop on a buffer of `h` planar lines -/
-theorem deint16_lines (w : Nat) (L : List Bytes) (hl : ∀ r ∈ L, r.length = 2 * w) :
-    deint16 L.flatten w L.length = L.flatMap fun line => interleave2 (line.drop w) (line.take w) ++ zeros ((2 * w) % 4) := by
+/-- one BMP row of a planar 16-bit line of `w` pixels placed at column `ox` of a row of `stride` bytes -/
+def bmpRow16 (stride ox w : Nat) (line : Bytes) : Bytes :=
+  zeros (2 * ox) ++ interleave2 (line.drop w) (line.take w) ++ zeros (stride - 2 * ox - 2 * w)
+
+/-- the de-interleave loop on a buffer of planar lines -/
+theorem deint16_lines (w cw ch ox : Nat) (hw : 0 < w) (L : List Bytes) (hl : ∀ r ∈ L, r.length = 2 * w) :
+    deint16 L.flatten w L.length cw ch ox
+      = L.flatMap (bmpRow16 (2 * cw + (2 * cw) % 4) ox w) ++ zeros ((2 * cw + (2 * cw) % 4) * (ch - L.length)) := by
   unfold deint16
+  have hw0 : ¬ (w = 0) := by omega
+  simp only [hw0, if_false]
+  congr 1
   rw [List.range_eq_range']
   apply flatMap_range'
   intro i hi
@@ -43,8 +51,7 @@ theorem deint16_lines (w : Nat) (L : List Bytes) (hl : ∀ r ∈ L, r.length = 2
     unfold slice; rw [List.take_of_length_le (by simp [List.length_drop]; omega)]
   have s2 : slice L[i] 0 w = L[i].take w := by unfold slice; simp
   rw [s1, s2]
-  congr 2
-  omega
+  rfl
 
 theorem interleave2_pairs (r : List (UInt8 × UInt8)) :
     interleave2 (r.map (·.2)) (r.map (·.1)) = r.flatMap fun p => [p.2, p.1] := by
@@ -138,7 +145,7 @@ theorem hdr16_shape (W H : Nat) : hdr16 W H = fileHdr ((W * H * 2 + 124 + 14 : N
 theorem decode16_eval (c : Call) (oy : Nat) (hoy : c.padH = (oy : Int))
     (hW : c.width < 2147483648) (hH : c.height < 2147483648) (hsize : c.width * c.height * 2 + 138 < 2147483648) (bmp : Bytes) (b : Buf)
     (hbmp : (if (c.fdata.length : Int) = (((c.width : Int) - c.padW) * 2) * ((c.height : Int) - oy)
-      then (.error .notImpl : R Bytes) else compressed16 c.fdata c.width c.height) = .ok bmp) :
+      then (.error .notImpl : R Bytes) else compressed16 c.fdata c.width c.height c.padW oy) = .ok bmp) :
     decode16 true c b = ([], .ok (hdr16 c.width c.height ++ bmp)) := by
   unfold decode16
   rw [hoy, fixPad_nat]
@@ -147,6 +154,25 @@ theorem decode16_eval (c : Call) (oy : Nat) (hoy : c.padH = (oy : Int))
   rw [bind_ok _ _ _ _ _ (writeInfoHeader124_ok _ _ 16 (i32_nat _ hW) (i32_nat _ hH) (by omega) _)]
   rw [hbmp]
   unfold hdr16
+  rfl
+
+theorem bind_err {α β : Type} (x : W α) (f : α → W β) (b b' : Buf) (e : Err) (h : x b = (b', .error e)) :
+    (x >>= f) b = (b', .error e) := by
+  show W.bind x f b = _
+  unfold W.bind
+  rw [h]
+
+/-- `Decoder16b.decode` when the raw-size test fires -/
+theorem decode16_raw (c : Call) (oy : Nat) (hoy : c.padH = (oy : Int))
+    (hW : c.width < 2147483648) (hH : c.height < 2147483648) (hsize : c.width * c.height * 2 + 138 < 2147483648) (b : Buf)
+    (htest : (c.fdata.length : Int) = (((c.width : Int) - c.padW) * 2) * ((c.height : Int) - oy)) :
+    (decode16 true c b).2 = .error .notImpl := by
+  unfold decode16
+  rw [hoy, fixPad_nat]
+  dsimp only
+  rw [bind_ok _ _ _ _ _ (writeBmpHeader_ok _ _ (i32_nat _ (by omega)) (i32_nat _ (by omega)) b)]
+  rw [bind_ok _ _ _ _ _ (writeInfoHeader124_ok _ _ 16 (i32_nat _ hW) (i32_nat _ hH) (by omega) _)]
+  rw [if_pos htest]
   rfl
 
 theorem decodeClass_16 : decodeClass "Decoder16b" = decode16 := by
@@ -168,30 +194,107 @@ theorem bitd2bmp_16 (c : Call) (hd : c.depth = 16) : bitd2bmp c = (decode16 true
   rw [decodeStep_snd true _ c _ hl, decodeClass_16]
   exact congrArg Prod.snd (decode16_eta c (paletteName c))
 
-/-- one BMP row of a planar 16-bit line -/
-def bmpRow16 (W : Nat) (line : Bytes) : Bytes := interleave2 (line.drop W) (line.take W) ++ zeros ((2 * W) % 4)
+/-! ### reading rows of `k`-byte pixels -/
 
-theorem compressed16_spec (W H : Nat) (hW : 0 < W) (opsRows : List (List Op)) (rows : List Bytes)
-    (hv : validRows opsRows rows = true) (hn : rows.length = H) (hH : 0 < H) (hl : ∀ r ∈ rows, r.length = 2 * W)
-    (hst : ∀ ops ∈ opsRows, straddles W 0 ops = false) :
-    compressed16 (packed opsRows.flatten) W H = .ok ((rows.reverse.map (bmpRow16 W)).flatten) := by
+theorem pixelsOf_append (k : Nat) : ∀ (a b : Nat) (X Y : Bytes), X.length = k * a →
+    pixelsOf k (a + b) (X ++ Y) = pixelsOf k a X ++ pixelsOf k b Y := by
+  intro a
+  induction a with
+  | zero =>
+    intro b X Y h
+    have : X = [] := List.eq_nil_of_length_eq_zero (by simpa using h)
+    subst this
+    simp [pixelsOf]
+  | succ a ih =>
+    intro b X Y h
+    have e : a + 1 + b = (a + b) + 1 := by omega
+    rw [e]
+    simp only [pixelsOf]
+    have hk : k ≤ X.length := by rw [h, Nat.mul_succ]; omega
+    have e1 : (X ++ Y).take k = X.take k := by rw [List.take_append_of_le_length hk]
+    have e2 : (X ++ Y).drop k = X.drop k ++ Y := by rw [List.drop_append_of_le_length hk]
+    rw [e1, e2, ih b (X.drop k) Y (by rw [List.length_drop, h, Nat.mul_succ]; omega)]
+    rfl
+
+theorem pixelsOf_zeros (k : Nat) : ∀ (n : Nat) (rest : Bytes), pixelsOf k n (zeros (k * n) ++ rest) = List.replicate n (zeros k) := by
+  intro n
+  induction n with
+  | zero => intro rest; rfl
+  | succ n ih =>
+    intro rest
+    have e : zeros (k * (n + 1)) = zeros k ++ zeros (k * n) := by rw [← zeros_add]; congr 1; rw [Nat.mul_succ]; omega
+    rw [e, List.append_assoc]
+    simp only [pixelsOf]
+    have e1 : (zeros k ++ (zeros (k * n) ++ rest)).take k = zeros k := by
+      rw [List.take_append_of_le_length (by simp), List.take_of_length_le (by simp)]
+    have e2 : (zeros k ++ (zeros (k * n) ++ rest)).drop k = zeros (k * n) ++ rest := by
+      rw [List.drop_append_of_le_length (by simp), List.drop_of_length_le (by simp), List.nil_append]
+    rw [e1, e2, ih rest, List.replicate_succ]
+
+/-- the file rows of a canvas of `k`-byte pixels: image rows (bottom-up) then `oy` empty rows -/
+def fileRowsK (stride oy : Nat) (imgRows : List Bytes) : List Bytes := imgRows ++ List.replicate oy (zeros stride)
+
+theorem read_fileRowsK {α : Type} (k stride W ox oy : Nat) (hox : ox ≤ W) (hst : k * W ≤ stride) (pix : List α)
+    (row : α → Bytes) (px : α → List Bytes)
+    (hrow : ∀ a ∈ pix, ∃ body, body.length = k * (W - ox) ∧ pixelsOf k (W - ox) (body ++ zeros (stride - k * ox - k * (W - ox))) = px a ∧
+              row a = zeros (k * ox) ++ body ++ zeros (stride - k * ox - k * (W - ox))) :
+    (fileRowsK stride oy (pix.reverse.map row)).reverse.map (fun r => pixelsOf k W r)
+      = List.replicate oy (List.replicate W (zeros k)) ++ pix.map (fun a => List.replicate ox (zeros k) ++ px a) := by
+  unfold fileRowsK
+  rw [List.reverse_append, List.map_append, List.reverse_replicate, List.map_replicate]
+  congr 1
+  · congr 1
+    have : zeros stride = zeros (k * W) ++ zeros (stride - k * W) := by rw [← zeros_add]; congr 1; omega
+    rw [this, pixelsOf_zeros]
+  · rw [← List.map_reverse, List.reverse_reverse, List.map_map]
+    apply List.map_congr_left
+    intro a ha
+    obtain ⟨body, hlen, hpx, hr⟩ := hrow a ha
+    simp only [Function.comp]
+    rw [hr, List.append_assoc]
+    have e : pixelsOf k W (zeros (k * ox) ++ (body ++ zeros (stride - k * ox - k * (W - ox))))
+        = pixelsOf k (ox + (W - ox)) (zeros (k * ox) ++ (body ++ zeros (stride - k * ox - k * (W - ox)))) := by
+      congr 1; omega
+    rw [e, pixelsOf_append k ox (W - ox) (zeros (k * ox)) _ (by simp)]
+    have := pixelsOf_zeros k ox []
+    rw [List.append_nil] at this
+    rw [this, hpx]
+
+theorem fileRowsK_flatten (stride oy : Nat) (imgRows : List Bytes) :
+    (fileRowsK stride oy imgRows).flatten = imgRows.flatten ++ zeros (stride * oy) := by
+  unfold fileRowsK
+  rw [List.flatten_append, flatten_replicate_zeros, Nat.mul_comm]
+
+/-! ### 16 bit -/
+
+/-- the planar scan lines of a 16-bit image -/
+def lines16 (rows : List (List (UInt8 × UInt8))) : List Bytes := rows.map fun r => r.map (·.1) ++ r.map (·.2)
+
+theorem stride16_ge (W : Nat) : 2 * W ≤ 2 * W + (2 * W) % 4 := by omega
+
+theorem compressed16_spec (W H ox oy : Nat) (hox : ox < W) (hoy : oy < H) (opsRows : List (List Op)) (rows : List Bytes)
+    (hv : validRows opsRows rows = true) (hn : rows.length = H - oy) (hl : ∀ r ∈ rows, r.length = 2 * (W - ox)) :
+    compressed16 (packed opsRows.flatten) W H ox oy
+      = .ok ((fileRowsK (2 * W + (2 * W) % 4) oy (rows.reverse.map (bmpRow16 (2 * W + (2 * W) % 4) ox (W - ox)))).flatten) := by
   unfold compressed16
-  have hz : zeros (2 * W * H) = zeros ((H - 1 + 1) * (2 * W)) ++ [] := by
+  simp only
+  have hz : zeros (2 * (W - ox) * (H - oy)) = zeros ((H - oy - 1 + 1) * (2 * (W - ox))) ++ [] := by
     rw [List.append_nil]; congr 1
-    have : H - 1 + 1 = H := by omega
+    have : H - oy - 1 + 1 = H - oy := by omega
     rw [this]; exact Nat.mul_comm _ _
-  have hstart : RowStart (2 * W) 0 ((H : Int) - 1) (H - 1) := Or.inl ⟨rfl, by omega⟩
-  have := loop16_rows W (2 * W) (by omega) (by omega) opsRows rows (H - 1) [] 0 ((H : Int) - 1) hstart hv (by omega) hl hst
+  have hstart : RowStart (2 * (W - ox)) 0 (((H - oy : Nat) : Int) - 1) (H - oy - 1) := Or.inl ⟨rfl, by omega⟩
+  have := loop16_rows (2 * (W - ox)) (by omega) opsRows rows (H - oy - 1) [] 0 (((H - oy : Nat) : Int) - 1) hstart hv (by omega) hl
   rw [hz, this]
   simp only [List.append_nil]
-  have hL : ∀ r ∈ rows.reverse, r.length = 2 * W := fun r h => hl r (by simpa using h)
-  have hd := deint16_lines W rows.reverse hL
+  have hL : ∀ r ∈ rows.reverse, r.length = 2 * (W - ox) := fun r h => hl r (by simpa using h)
+  have hd := deint16_lines (W - ox) W H ox (by omega) rows.reverse hL
   rw [List.length_reverse, hn] at hd
-  rw [hd, List.flatMap_def]
-  rfl
+  have e : H - (H - oy) = oy := by omega
+  rw [hd, fileRowsK_flatten, List.flatMap_def, e]
 
-theorem bmpRow16_line (r : List (UInt8 × UInt8)) :
-    bmpRow16 r.length (r.map (·.1) ++ r.map (·.2)) = (r.flatMap fun p => [p.2, p.1]) ++ zeros ((2 * r.length) % 4) := by
+theorem bmpRow16_line (stride ox : Nat) (r : List (UInt8 × UInt8)) :
+    bmpRow16 stride ox r.length (r.map (·.1) ++ r.map (·.2))
+      = zeros (2 * ox) ++ (r.flatMap fun p => [p.2, p.1]) ++ zeros (stride - 2 * ox - 2 * r.length) := by
   unfold bmpRow16
   have e1 : (r.map (·.1) ++ r.map (·.2)).drop r.length = r.map (·.2) := by
     rw [List.drop_append]; simp
@@ -204,65 +307,73 @@ theorem wf16 (W H ox oy : Nat) (rows : List (List (UInt8 × UInt8))) (h : (Img.m
   simp only [Img.wf, Pixels.shapeOk, Img.w, Img.h, Bool.and_eq_true, decide_eq_true_eq, beq_iff_eq, List.all_eq_true] at h
   exact ⟨h.1.1, h.1.2, h.2.1, h.2.2⟩
 
-/-- the BMP of a 16-bit image without offsets reads back as its canvas -/
-theorem read_bmp16 (W H : Nat) (hW : W < 2147483648) (hH : H < 2147483648)
-    (rows : List (List (UInt8 × UInt8))) (hrows : rows.length = H) (hpix : ∀ r ∈ rows, r.length = W) :
-    readBmp (hdr16 W H ++ ((rows.map fun r => r.map (·.1) ++ r.map (·.2)).reverse.map (bmpRow16 W)).flatten ++ [])
-      = some (canvas ⟨W, H, 0, 0, .d16 rows⟩) := by
+/-- the explicit BMP of a 16-bit image -/
+def bmp16 (W H ox oy : Nat) (rows : List (List (UInt8 × UInt8))) : Bytes :=
+  hdr16 W H ++ (fileRowsK (2 * W + (2 * W) % 4) oy ((lines16 rows).reverse.map (bmpRow16 (2 * W + (2 * W) % 4) ox (W - ox)))).flatten
+
+/-- ... reads back as the canvas, for every geometry -/
+theorem read_bmp16 (W H ox oy : Nat) (hox : ox ≤ W) (hoy : oy ≤ H) (hW : W < 2147483648) (hH : H < 2147483648)
+    (rows : List (List (UInt8 × UInt8))) (hrows : rows.length = H - oy) (hpix : ∀ r ∈ rows, r.length = W - ox) :
+    readBmp (bmp16 W H ox oy rows) = some (canvas ⟨W, H, ox, oy, .d16 rows⟩) := by
+  unfold bmp16
   have hf := hdrGen_fields ((W * H * 2 + 124 + 14 : Nat) : Int) 124 (124 + 14) W H 16 (tail124 ++ []) (by omega) hW hH (by omega)
   simp only at hf
   rw [← hdr16_shape] at hf
   have hlen : (hdr16 W H).length = 124 + 14 := hdr16_length W H
-  have hrw : ∀ r ∈ (rows.map fun r => r.map (·.1) ++ r.map (·.2)).reverse.map (bmpRow16 W), r.length = (W * 16 + 31) / 32 * 4 := by
+  have hrowlen : ∀ r ∈ fileRowsK (2 * W + (2 * W) % 4) oy ((lines16 rows).reverse.map (bmpRow16 (2 * W + (2 * W) % 4) ox (W - ox))),
+      r.length = (W * 16 + 31) / 32 * 4 := by
     intro r hr
-    simp only [List.mem_map, List.mem_reverse] at hr
-    obtain ⟨l, ⟨a, ha, rfl⟩, rfl⟩ := hr
-    have := hpix a ha
-    rw [← this, bmpRow16_line]
-    simp only [List.length_append, zeros_length]
-    rw [flatMap_pairs_length]
-    omega
-  rw [readBmp_rows (hdr16 W H) W H 16 _ [] (by rw [hlen]; omega) hf.1 (by rw [hlen]; exact hf.2.1) hf.2.2.1 hf.2.2.2.1
-    hf.2.2.2.2.1 hf.2.2.2.2.2 hW hH (Or.inr (Or.inl rfl)) (by simp [hrows]) hrw]
+    simp only [fileRowsK, lines16, List.mem_append, List.mem_map, List.mem_reverse, List.mem_replicate] at hr
+    rcases hr with ⟨l, ⟨a, ha, rfl⟩, rfl⟩ | ⟨_, rfl⟩
+    · have := hpix a ha
+      rw [← this, bmpRow16_line]
+      simp only [List.length_append, zeros_length, flatMap_pairs_length]
+      omega
+    · simp; omega
+  have hcount : (fileRowsK (2 * W + (2 * W) % 4) oy ((lines16 rows).reverse.map (bmpRow16 (2 * W + (2 * W) % 4) ox (W - ox)))).length = H := by
+    simp [fileRowsK, lines16, hrows]; omega
+  have := readBmp_rows (hdr16 W H) W H 16 _ [] (by rw [hlen]; omega) hf.1 (by rw [hlen]; exact hf.2.1) hf.2.2.1 hf.2.2.2.1
+    hf.2.2.2.2.1 hf.2.2.2.2.2 hW hH (Or.inr (Or.inl rfl)) hcount hrowlen
+  rw [List.append_nil] at this
+  rw [this]
   have e16 : (16 : Nat) / 8 = 2 := rfl
-  rw [e16, ← List.map_reverse, List.reverse_reverse, List.map_map, List.map_map]
-  unfold canvas canvasRows
-  simp only [Pixels.bytesPerPixel, List.replicate_zero, List.nil_append, List.map_map]
-  congr 1
-  apply List.map_congr_left
-  intro r hr
-  simp only [Function.comp]
-  have := hpix r hr
-  rw [← this, bmpRow16_line, pixelsOf_two]
+  rw [e16]
+  unfold lines16
+  rw [← List.map_reverse, List.map_map]
+  rw [read_fileRowsK 2 (2 * W + (2 * W) % 4) W ox oy hox (by omega) rows _ (fun r => r.map fun p => [p.2, p.1])]
+  · unfold canvas canvasRows
+    simp only [Pixels.bytesPerPixel, List.map_map]
+    rfl
+  · intro a ha
+    have hal := hpix a ha
+    refine ⟨a.flatMap fun p => [p.2, p.1], by rw [flatMap_pairs_length, hal], ?_, ?_⟩
+    · rw [← hal]; exact pixelsOf_two a _
+    · simp only [Function.comp]
+      rw [← hal, bmpRow16_line]
 
-/-- the planar scan lines of a 16-bit image -/
-def lines16 (rows : List (List (UInt8 × UInt8))) : List Bytes := rows.map fun r => r.map (·.1) ++ r.map (·.2)
-
-/-- 16 bit, PackBits storage, no offsets, every operation inside one byte plane: header ++ BMP rows -/
-theorem bitd2bmp_16_packed (W H : Nat) (rows : List (List (UInt8 × UInt8))) (p1 p2 : UInt8) (opsRows : List (List Op))
-    (hwf : (Img.mk W H 0 0 (.d16 rows)).wf = true) (hfit : fitsHeader (Img.mk W H 0 0 (.d16 rows)) = true)
-    (hv : validEnc ⟨W, H, 0, 0, .d16 rows⟩ p1 p2 (.packed opsRows) = true)
-    (hne : (serialise ⟨W, H, 0, 0, .d16 rows⟩ p1 p2 (.packed opsRows)).length ≠ (serialise ⟨W, H, 0, 0, .d16 rows⟩ p1 p2 .raw).length)
-    (hst : ∀ ops ∈ opsRows, straddles W 0 ops = false) :
-    bitd2bmp (callOf ⟨W, H, 0, 0, .d16 rows⟩ (serialise ⟨W, H, 0, 0, .d16 rows⟩ p1 p2 (.packed opsRows)))
-      = .ok (hdr16 W H ++ ((lines16 rows).reverse.map (bmpRow16 W)).flatten) := by
-  obtain ⟨_, _, hrows, hpix⟩ := wf16 W H 0 0 rows hwf
-  simp only [Nat.sub_zero] at hrows hpix
+/-- 16 bit, PackBits storage: every geometry, every valid scan-line segmentation -/
+theorem bitd2bmp_16_packed (W H ox oy : Nat) (rows : List (List (UInt8 × UInt8))) (p1 p2 : UInt8) (opsRows : List (List Op))
+    (hwf : (Img.mk W H ox oy (.d16 rows)).wf = true) (hfit : fitsHeader (Img.mk W H ox oy (.d16 rows)) = true)
+    (hv : validEnc ⟨W, H, ox, oy, .d16 rows⟩ p1 p2 (.packed opsRows) = true)
+    (hne : (serialise ⟨W, H, ox, oy, .d16 rows⟩ p1 p2 (.packed opsRows)).length ≠ (serialise ⟨W, H, ox, oy, .d16 rows⟩ p1 p2 .raw).length) :
+    bitd2bmp (callOf ⟨W, H, ox, oy, .d16 rows⟩ (serialise ⟨W, H, ox, oy, .d16 rows⟩ p1 p2 (.packed opsRows))) = .ok (bmp16 W H ox oy rows) := by
+  obtain ⟨hox, hoy, hrows, hpix⟩ := wf16 W H ox oy rows hwf
   simp only [fitsHeader, decide_eq_true_eq] at hfit
   obtain ⟨hW, hH, hWH⟩ := fits_bounds W H hfit
   have hv' : validRows opsRows (lines16 rows) = true := hv
-  have hraw : ∀ r ∈ lines16 rows, r.length = 2 * W := by
+  have hraw : ∀ r ∈ lines16 rows, r.length = 2 * (W - ox) := by
     intro r hr
     simp only [lines16, List.mem_map] at hr
     obtain ⟨a, ha, rfl⟩ := hr
     simp [hpix a ha]; omega
-  have hlen : (lines16 rows).flatten.length = 2 * W * H := by
+  have hlen : (lines16 rows).flatten.length = 2 * (W - ox) * (H - oy) := by
     rw [length_flatten_uniform _ _ hraw]; simp [lines16, hrows]
-  have hne' : (packed opsRows.flatten).length ≠ 2 * W * H := by
+  have hne' : (packed opsRows.flatten).length ≠ 2 * (W - ox) * (H - oy) := by
     rw [← hlen]; exact hne
-  have hpos : 0 < W ∧ 0 < H := by
-    refine ⟨Nat.pos_of_ne_zero ?_, Nat.pos_of_ne_zero ?_⟩
-    · intro h0
+  have hpos : ox < W ∧ oy < H := by
+    refine ⟨Nat.lt_of_not_le ?_, Nat.lt_of_not_le ?_⟩
+    · intro hle
+      have h0 : W - ox = 0 := by omega
       apply hne'
       have : packed opsRows.flatten = [] := validRows_all_empty opsRows _ hv' (by
         intro r hr
@@ -270,31 +381,56 @@ theorem bitd2bmp_16_packed (W H : Nat) (rows : List (List (UInt8 × UInt8))) (p1
         rw [h0] at this
         exact List.eq_nil_of_length_eq_zero this)
       rw [this, h0]; simp
-    · intro h0
+    · intro hle
+      have h0 : H - oy = 0 := by omega
       apply hne'
       have : rows = [] := List.eq_nil_of_length_eq_zero (by omega)
       subst this
       have : packed opsRows.flatten = [] := validRows_all_empty opsRows _ hv' (by simp [lines16])
       rw [this, h0]; simp
   rw [bitd2bmp_16 _ rfl]
-  have hspec := compressed16_spec W H hpos.1 opsRows (lines16 rows) hv' (by simp [lines16, hrows]) hpos.2 hraw hst
-  rw [decode16_eval { callOf ⟨W, H, 0, 0, .d16 rows⟩ (serialise ⟨W, H, 0, 0, .d16 rows⟩ p1 p2 (.packed opsRows)) with
-      palette := paletteName (callOf ⟨W, H, 0, 0, .d16 rows⟩ (serialise ⟨W, H, 0, 0, .d16 rows⟩ p1 p2 (.packed opsRows))) } 0 rfl hW hH
-    (by show W * H * 2 + 138 < 2147483648; omega)
-    ((lines16 rows).reverse.map (bmpRow16 W)).flatten []
+  have hspec := compressed16_spec W H ox oy hpos.1 hpos.2 opsRows (lines16 rows) hv' (by simp [lines16, hrows]) hraw
+  rw [decode16_eval { callOf ⟨W, H, ox, oy, .d16 rows⟩ (serialise ⟨W, H, ox, oy, .d16 rows⟩ p1 p2 (.packed opsRows)) with
+      palette := paletteName (callOf ⟨W, H, ox, oy, .d16 rows⟩ (serialise ⟨W, H, ox, oy, .d16 rows⟩ p1 p2 (.packed opsRows))) } oy rfl hW hH
+    (by show W * H * 2 + 138 < 2147483648; omega) _ []
     (by
-      show (if (((packed opsRows.flatten).length : Nat) : Int) = (((W : Int) - ((0 : Nat) : Int)) * 2) * ((H : Int) - ((0 : Nat) : Int))
-        then (.error .notImpl : R Bytes) else compressed16 (packed opsRows.flatten) W H) = _
-      have : ¬ ((((packed opsRows.flatten).length : Nat) : Int) = (((W : Int) - ((0 : Nat) : Int)) * 2) * ((H : Int) - ((0 : Nat) : Int))) := by
+      show (if (((packed opsRows.flatten).length : Nat) : Int) = (((W : Int) - (ox : Int)) * 2) * ((H : Int) - (oy : Int))
+        then (.error .notImpl : R Bytes) else compressed16 (packed opsRows.flatten) W H ox oy) = _
+      have : ¬ ((((packed opsRows.flatten).length : Nat) : Int) = (((W : Int) - (ox : Int)) * 2) * ((H : Int) - (oy : Int))) := by
         intro h
         apply hne'
-        have e : (((W : Int) - ((0 : Nat) : Int)) * 2) * ((H : Int) - ((0 : Nat) : Int)) = ((2 * W * H : Nat) : Int) := by
-          simp only [Int.natCast_mul, Int.natCast_zero, Int.sub_zero]
-          rw [Int.mul_comm (W : Int) 2]; rfl
+        have e : (((W : Int) - (ox : Int)) * 2) * ((H : Int) - (oy : Int)) = ((2 * (W - ox) * (H - oy) : Nat) : Int) := by
+          have ewi : ((W : Int) - (ox : Int)) = ((W - ox : Nat) : Int) := by omega
+          have ehi : ((H : Int) - (oy : Int)) = ((H - oy : Nat) : Int) := by omega
+          rw [ewi, ehi, Int.natCast_mul, Int.natCast_mul, Int.mul_comm ((W - ox : Nat) : Int) 2]; rfl
         rw [e] at h
         exact Int.ofNat_inj.mp h
       rw [if_neg this]
       exact hspec)]
   rfl
+
+/-- raw 16-bit storage is rejected (NotImplementedError), never decoded into a wrong picture -/
+theorem bitd2bmp_16_raw_rejected (W H ox oy : Nat) (rows : List (List (UInt8 × UInt8))) (p1 p2 : UInt8)
+    (hwf : (Img.mk W H ox oy (.d16 rows)).wf = true) (hfit : fitsHeader (Img.mk W H ox oy (.d16 rows)) = true) :
+    bitd2bmp (callOf ⟨W, H, ox, oy, .d16 rows⟩ (serialise ⟨W, H, ox, oy, .d16 rows⟩ p1 p2 .raw)) = .error .notImpl := by
+  obtain ⟨hox, hoy, hrows, hpix⟩ := wf16 W H ox oy rows hwf
+  simp only [fitsHeader, decide_eq_true_eq] at hfit
+  obtain ⟨hW, hH, hWH⟩ := fits_bounds W H hfit
+  have hraw : ∀ r ∈ lines16 rows, r.length = 2 * (W - ox) := by
+    intro r hr
+    simp only [lines16, List.mem_map] at hr
+    obtain ⟨a, ha, rfl⟩ := hr
+    simp [hpix a ha]; omega
+  have hlen : (lines16 rows).flatten.length = 2 * (W - ox) * (H - oy) := by
+    rw [length_flatten_uniform _ _ hraw]; simp [lines16, hrows]
+  rw [bitd2bmp_16 _ rfl]
+  exact decode16_raw { callOf ⟨W, H, ox, oy, .d16 rows⟩ (serialise ⟨W, H, ox, oy, .d16 rows⟩ p1 p2 .raw) with
+      palette := paletteName (callOf ⟨W, H, ox, oy, .d16 rows⟩ (serialise ⟨W, H, ox, oy, .d16 rows⟩ p1 p2 .raw)) } oy rfl hW hH
+    (by show W * H * 2 + 138 < 2147483648; omega) []
+    (by
+      show (((lines16 rows).flatten.length : Nat) : Int) = (((W : Int) - (ox : Int)) * 2) * ((H : Int) - (oy : Int))
+      have ewi : ((W : Int) - (ox : Int)) = ((W - ox : Nat) : Int) := by omega
+      have ehi : ((H : Int) - (oy : Int)) = ((H - oy : Nat) : Int) := by omega
+      rw [hlen, ewi, ehi, Int.natCast_mul, Int.natCast_mul, Int.mul_comm ((W - ox : Nat) : Int) 2]; rfl)
 
 end Drx.Bitd
